@@ -491,32 +491,41 @@ instance (p : Pool) (b par : Nat × Nat) : Decidable (accepted p b par) := by
   | panic => exact isFalse (fun ⟨_, t, ev, h'⟩ => by cases h')
   | ok t ev => exact decidable_of_iff (b.1 > par.1) ⟨fun a => ⟨a, t, ev, rfl⟩, fun a => a.1⟩
 
-/-- the call structure of `Pool::add_block`: refused registrations leave the pool alone; otherwise the watermark
-    advances (`hadv`), blocks of decided slots are dropped, the block is made known in its slot (`hknown`) and
-    the tail either certifies it or queues it -/
+/-- the pool after `add_block` made the block known in its slot -/
+def Pool.known (q : Pool) (b : Nat × Nat) : Pool :=
+  (q.slotState b.1).1.putSlot ((q.slotState b.1).2.notifyParentKnown b.2)
+
+/-- `add_block`'s test "the pool holds a notar-fallback-or-stronger certificate for the parent" -/
+def Pool.certifiedB (q : Pool) (par : Nat × Nat) : Bool :=
+  match q.getSlot par.1 with
+  | some ps => ps.isNfOrStronger par.2
+  | none => false
+
+/-- the call structure of `Pool::add_block`: refused registrations leave the pool alone (`hrej`); otherwise the
+    watermark advances, blocks of decided slots are dropped, the block is made known in its slot and the tail either
+    certifies it or queues it -/
 theorem addBlock_ind (I : Pool → Prop) (p : Pool) (b par : Nat × Nat)
-    (hp : I p)
+    (hrej : ¬ accepted p b par → I p)
     (hacc : accepted p b par → ∀ t r, p.fin.first ≤ t.first →
-      (t.first ≤ b.1 → ∀ e0, I (Pool.addBlockTail ((p.advance t r).slotState b.1 |>.1.putSlot
-          (((p.advance t r).slotState b.1).2.notifyParentKnown b.2)) b par e0
-          (match ((p.advance t r).slotState b.1 |>.1.putSlot (((p.advance t r).slotState b.1).2.notifyParentKnown b.2)).getSlot par.1 with
-            | some ps => ps.isNfOrStronger par.2
-            | none => false)).1) ∧
+      (t.first ≤ b.1 → ∀ e0, I (Pool.addBlockTail ((p.advance t r).known b) b par e0 (((p.advance t r).known b).certifiedB par)).1) ∧
       (b.1 < t.first → I (p.advance t r))) :
     I (p.addBlock b par).1 := by
   unfold Pool.addBlock
   split
-  · exact hp
+  · rename_i hgt
+    exact hrej (fun a => hgt a.1)
   rename_i hgt
   have hgt' : b.1 > par.1 := by omega
   split
-  · exact hp
+  · rename_i hst
+    exact hrej (fun ⟨_, t, ev, a⟩ => by rw [hst] at a; cases a)
   rename_i t ev hst
   have hmono : p.fin.first ≤ t.first := fin_first_mono (op := .parent b par) hst
   obtain ⟨h1, h2⟩ := hacc ⟨hgt', t, ev, hst⟩ t (ParentReady.handleFinalization p.pr ev) hmono
   dsimp only
   have hfin : (p.advance t (ParentReady.handleFinalization p.pr ev)).fin = t := advance_fin _ _ _
-  unfold Pool.advance at h1 h2 hfin
+  unfold Pool.known Pool.certifiedB Pool.advance at h1
+  unfold Pool.advance at h2 hfin
   split
   · rename_i hlt
     rw [hfin] at hlt
